@@ -158,6 +158,20 @@ def oracle(w, obs, meta, out, counts):
                 v("C11.b", "trade-status", "all orders of the trade are complete but the trade is %s" % t.status.name)
             elif t.id in rc.live_trades:
                 v("C11.b", "runner-slot", "trade complete but still counted as live on the runner")
+    # b/d) runner accounting recounted from the orders: live trades = trades with an order not complete
+    for st in fw.strategies:
+        for m in fw.markets:
+            by = {}
+            for o in m.blotter.strategy_orders(st):
+                by.setdefault((o.selection_id, o.handicap), []).append(o)
+            for (sel, hc), os_ in by.items():
+                rc = st.get_runner_context(m.market_id, sel, hc)
+                live = {id(o.trade) for o in os_ if not o.complete}
+                counts["clause:C11.b"] += 1
+                # orders completed by a reply keep their trade's slot only through the known live-list finding; the
+                # count itself must match the orders' state
+                if rc.live_trade_count != len(live):
+                    v("C11.d" if w.generation else "C11.b", "live_trade_count", "strategy %s runner %s: live_trade_count %d but %d trade(s) have an order not complete" % (st.name, sel, rc.live_trade_count, len(live)))
     # e) unknown strategies
     for b in unknown_bets:
         counts["clause:C11.e"] += 1
